@@ -626,6 +626,8 @@ func do_YIELD_FROM(vm *Vm, arg int32) error {
 		if !py.IsException(py.StopIteration, err) {
 			return err
 		}
+		// the value of the yield from expression is the value carried by StopIteration
+		vm.SET_TOP(py.StopIterationValue(err))
 		return nil
 	}
 	// x remains on stack, retval is value to be yielded
